@@ -17,7 +17,7 @@ CONSTANTS
   MaxTraceK = 0
   BUG_STALE_TC = FALSE
   BUG_NESTED_FLAGS = FALSE
-  OPS = {"clear", "clearw", "clone", "clonew", "collect", "downgrade", "drop", "dropw", "new", "put", "set", "setw", "unwrap", "upgrade", "upgradef"}
+  OPS = {"clear", "clearw", "clone", "clonew", "collect", "downgrade", "drop", "dropw", "new", "put", "set", "setw", "unwrap", "upgrade", "upgradef", "wnew"}
   AUTOF = TRUE
   AUTO0 = FALSE
   SZ = 160
